@@ -15,11 +15,11 @@ class IterativeReweightedL1(GeneralizedLinearEstimator):
     ----------
     datafit : instance of BaseDatafit, optional
         Datafit. If None, ``datafit`` is initialized as a :class:`.Quadratic` datafit.
-        ``datafit`` is replaced by a JIT-compiled instance when calling fit.
+        A JIT-compiled copy of ``datafit`` is used when calling fit.
 
     penalty : instance of BasePenalty, optional
         Penalty. If None, `penalty` is initialized as a :class:`.L0_5` penalty.
-        `penalty` is replaced by a JIT-compiled instance when calling fit.
+        A JIT-compiled copy of `penalty` is used when calling fit.
 
     solver : instance of BaseSolver, optional
         Solver. If None, ``solver`` is initialized as an :class:`.AndersonCD` solver.
@@ -70,17 +70,18 @@ class IterativeReweightedL1(GeneralizedLinearEstimator):
 
         n_features = X.shape[1]
         _penalty = compiled_clone(WeightedL1(self.penalty.alpha, np.ones(n_features)))
-        self.datafit = compiled_clone(self.datafit)
-        self.penalty = compiled_clone(self.penalty)
+        # compile copies: overwriting the attributes makes a second call to fit fail
+        datafit = compiled_clone(self.datafit)
+        penalty = compiled_clone(self.penalty)
 
         self.loss_history_ = []
 
         for iter_reweight in range(self.n_reweights):
-            coef_ = self.solver.solve(X, y, self.datafit, _penalty)[0]
-            _penalty.weights = self.penalty.derivative(coef_)
+            coef_ = self.solver.solve(X, y, datafit, _penalty)[0]
+            _penalty.weights = penalty.derivative(coef_)
 
-            loss = (self.datafit.value(y, coef_, X @ coef_)
-                    + self.penalty.value(coef_))
+            loss = (datafit.value(y, coef_, X @ coef_)
+                    + penalty.value(coef_))
             self.loss_history_.append(loss)
 
             if self.solver.verbose:
